@@ -24,6 +24,8 @@ case "$PROP:$TIER" in
   C06:*) ARGS="-len 3 -check remote";;
   C07:quick) ARGS="-len 2 -check view";;
   C07:*) ARGS="-len 3 -check view";;
+  C13:quick) ARGS="-len 3";;
+  C13:*) ARGS="-len 4";;
   C17:quick) ARGS="-n 5 -args 2 -arglen 2";;
   C17:*) ARGS="-n 7 -args 2 -arglen 3";;
   C18:quick) ARGS="-len 2";;
@@ -42,4 +44,19 @@ cd "$D" || exit 3
 if ! go build -modfile="$S/go.mod" -o "$S/standin" "./$P" 2>"$S/build.err"; then
   cat "$S/build.err" >&2; exit 3
 fi
-"$S/standin" $ARGS "$@" -out "$OUT"
+# temporary directories of the driver (disk filespaces) live in the scratch directory removed on exit
+mkdir -p "$S/tmp"
+TMPDIR="$S/tmp" "$S/standin" $ARGS "$@" -out "$OUT" 2>"$S/run.err"; RC=$?
+cat "$S/run.err" >&2
+if [ $RC -ne 0 ] && [ $RC -ne 1 ] || [ ! -s "$OUT" ]; then
+  # the real code brought the driver down (fatal error, panic in a goroutine it started, kill):
+  # that is a failing run of the bounded space, reported with the runtime's own output
+  python3 - "$OUT" "$S/run.err" "$RC" <<'PY'
+import json, sys
+err = open(sys.argv[2], errors="replace").read()
+json.dump({"bound": "the run of the bounded space aborted", "cases": 0, "distinct_nontrivial": 0, "samples": [], "exhaustive": False, "wall_s": 0.0,
+           "failures": [{"check": "driver-crashed", "input": "(the run aborted before finishing the bounded space; exit code %s)" % sys.argv[3], "what": err[:6000]}]}, open(sys.argv[1], "w"), indent=1)
+PY
+  exit 1
+fi
+exit $RC
